@@ -1,4 +1,6 @@
 import PGT.Props.C08
+import PGT.Proofs.ToInPlace
+import PGT.Props.C03
 /-
 C09 – Refresh: in-place CopyTo makes collections and known values follow the source.
 Full statement: `C09_full` (`Spec.c09StepCheck` on every step of every sequence of calls). Proved: scalars
@@ -44,5 +46,82 @@ theorem elems_length (body : ElemBody) : ∀ (elems : List GoVal) (k : Nat) (acc
       simpa [setIdx] using this
     · cases h
     · cases h
+
+-- ====================================================================================================
+-- every template, every depth, arbitrary sequences of calls
+
+/-- a target object CopyTo can refresh: it carries the attribute types `atys`, and the attribute values it already
+holds are *shaped* for the IR (`Shaped`: of the attribute's kind, nested objects carrying their attribute types; any
+flags – also unknown –, any payloads, any list / map elements). The empty schema-typed object is such a target, and so is
+every result of CopyTo. -/
+def Target (fs : List Field) (atys : List (String × TfTy)) (o : TfVal) : Prop :=
+  ∃ u n as, o = .obj u n as (some atys) ∧ ShapedAttrs fs (as.getD []) atys
+
+theorem C09_empty_is_target (fs : List Field) (atys : List (String × TfTy)) :
+    Target fs atys (.obj false false none (some atys)) :=
+  ⟨false, false, none, rfl, shapedAttrs_nil fs atys⟩
+
+/-- **C09, one refresh step, every template at every nesting depth** (mutual induction, `PGT/Proofs/ToInPlace.lean`):
+copying any typed struct value into any target (an object that already holds an earlier state) returns no diagnostic,
+and the result *follows the source* (`Spec.followsFields`): every list has exactly the source's length and elements, every
+map exactly the source's keys and values (elements are rebuilt from the element type), every scalar attribute is known and,
+if it was non-null, carries the source's value, pointer-backed scalars are null exactly when the pointer is nil, a nullable
+message that is nil in the source is null, nested objects recursively; and the result is a target again. -/
+theorem C09_step (m : Msg) (v : GoVal) (atys : List (String × TfTy)) (o : TfVal)
+    (hv : ToOKs m.fields v atys) (ho : Target m.fields atys o) :
+    ∃ r as as', copyTo m v o = .ok r ∧ r.diags = [] ∧ r.tf = .obj false false (some as') (some atys) ∧
+      (match o with | .obj _ _ a _ => a.getD [] | _ => []) = as ∧
+      followsFields m.fields v as as' = true ∧ Target m.fields atys r.tf := by
+  obtain ⟨u, n, as0, rfl, hS⟩ := ho
+  obtain ⟨st', hrun, hd, _, hall, hS', _⟩ :=
+    toFields_inplace m.fields v atys { attrs := as0.getD [] } hv hS
+  refine ⟨{ tf := .obj false false (some st'.attrs) (some atys), diags := st'.diags, hooks := st'.hooks }, as0.getD [], st'.attrs,
+    ?_, by simpa using hd, rfl, rfl, followsFields_of_forall m.fields v _ _ hall, ⟨false, false, some st'.attrs, rfl, hS'⟩⟩
+  simp [copyTo, hrun]
+
+/-- a sequence of refresh calls on one object -/
+def runSeq (m : Msg) : List GoVal → TfVal → Outcome TfVal
+  | [], o => .ok o
+  | v :: vs, o =>
+    match copyTo m v o with
+    | .ok r => if r.diags.isEmpty then runSeq m vs r.tf else .stuck "diagnostics"
+    | .panic w => .panic w
+    | .stuck w => .stuck w
+
+/-- **C09 over arbitrary sequences of calls** (induction over the list of calls, invariant `Target`): starting from the
+empty schema-typed object – or any target –, every call of a sequence of any length succeeds without diagnostics and the
+final object is a target (so the sequence can be continued); by `C09_step` each intermediate object follows its source. -/
+theorem C09_sequence (m : Msg) (atys : List (String × TfTy)) : ∀ (vs : List GoVal) (o : TfVal),
+    (∀ v ∈ vs, ToOKs m.fields v atys) → Target m.fields atys o →
+    ∃ o', runSeq m vs o = .ok o' ∧ Target m.fields atys o'
+  | [], o, _, ho => ⟨o, rfl, ho⟩
+  | v :: vs, o, hvs, ho => by
+    obtain ⟨r, as, as', hrun, hd, _, _, _, ht⟩ := C09_step m v atys o (hvs v (by simp)) ho
+    obtain ⟨o', hseq, ho'⟩ := C09_sequence m atys vs r.tf (fun w hw => hvs w (by simp [hw])) ht
+    refine ⟨o', ?_, ho'⟩
+    simp [runSeq, hrun, hd, hseq]
+
+/-- the last call of a non-empty sequence leaves an object that follows its source -/
+theorem C09_sequence_last (m : Msg) (atys : List (String × TfTy)) (vs : List GoVal) (vlast : GoVal) (o : TfVal)
+    (hvs : ∀ v ∈ vs, ToOKs m.fields v atys) (hl : ToOKs m.fields vlast atys) (ho : Target m.fields atys o) :
+    ∃ omid r as as', runSeq m vs o = .ok omid ∧ copyTo m vlast omid = .ok r ∧ r.diags = [] ∧
+      r.tf = .obj false false (some as') (some atys) ∧ followsFields m.fields vlast as as' = true := by
+  obtain ⟨omid, hseq, hmid⟩ := C09_sequence m atys vs o hvs ho
+  obtain ⟨r, as, as', hrun, hd, htf, _, hf, _⟩ := C09_step m vlast atys omid hl hmid
+  exact ⟨omid, r, as, as', hseq, hrun, hd, htf, hf⟩
+
+/-- non-vacuity: the example of C03 (a string, a nullable nested message with a list of int32), refreshed with a
+shorter list and a nil nested message: the runs succeed and the object follows -/
+theorem C09_example_runs :
+    (match runSeq { info := { name := "M" }, fields := C03.exFields }
+        [C03.exObj, .struct [("S", .sc (.str [])), ("N", .ptr (some (.struct [("L", .slice (some [.sc (.w32 9)]))])))],
+         .struct [("S", .sc (.str [122])), ("N", .ptr none)]]
+        (.obj false false none (some C03.exTys)) with
+     | .ok (.obj _ _ (some as) _) =>
+       (match as.lookup "n", as.lookup "s" with
+        | some (.obj _ n _ _), some (.prim _ _ sn (.str sv)) => n && !sn && sv == [122]
+        | _, _ => false)
+     | _ => false) = true := by
+  decide
 
 end PGT.Props.C09
